@@ -426,8 +426,9 @@ def parser_31da_is_the_merge_of_its_fields(n):
     calls = ghost("field_calls")
     if o.ok:
         check(len(calls) == len(FIELDS_31DA), "every field decoder is called exactly once")
-        for (name, lo, hi), (cname, cval) in zip(FIELDS_31DA, calls):
-            check(And(cname == name, cval == payload[lo:hi]), "each field decoder is given its own slice of the payload, of the width its contract covers")
+        for name, lo, hi in FIELDS_31DA:  # (in whatever order: the order of the entries of a JSON object carries no meaning)
+            mine = [cval for cname, cval in calls if cname == name]
+            check(len(mine) == 1 and mine[0] == payload[lo:hi], "each field decoder is given its own slice of the payload, of the width its contract covers")
         check(And(isinstance(o.value, dict), len(o.value) == len(FIELDS_31DA)), "the decoded payload is the union of the fields' dicts")
         for name, lo, hi in FIELDS_31DA:
             check(o.value.get("_from_" + name) == payload[lo:hi], "and holds each field's entries")
